@@ -363,6 +363,10 @@ func (w *walker) stmt(s ast.Stmt) {
 				w.emit("set_header(" + strings.TrimSuffix(ls, ".Header") + ")")
 			case strings.HasSuffix(ls, ".FileInfo"):
 				w.emit("set_fileinfo(" + strings.TrimSuffix(ls, ".FileInfo") + ")")
+			case strings.Contains(ls, ".FileInfo."):
+				// a write INTO the FileInfo, which the working copy shares with the cached table: it must come
+				// after the last step that can fail (C08-m16 put it before the DEFAULT expressions were evaluated)
+				w.emit("write_fileinfo_field(" + ls[strings.Index(ls, ".FileInfo.")+len(".FileInfo."):] + ")")
 			case strings.HasSuffix(ls, "Tx.AffectedRows"):
 				w.emit("store_affected(" + strings.ReplaceAll(src(x.Rhs[0]), " ", "") + ")")
 			case strings.HasSuffix(ls, ".selectFields"):
